@@ -410,6 +410,7 @@ func c06Helper(c *eng.Ctx, d *dbInfo, f *ssa.Function, sig checkerSig, we *ssa.F
 		}
 	})
 	nfail := 0
+	handedOn := false
 	for _, pa := range paths {
 		ret, isRet := pa.Last().(*ssa.Return)
 		if !isRet || ret.Block() == f.Recover {
@@ -435,6 +436,8 @@ func c06Helper(c *eng.Ctx, d *dbInfo, f *ssa.Function, sig checkerSig, we *ssa.F
 			if pa.Contains(w) && !tested[w] {
 				if !eng.Same(pa.Resolve(rv[0]), saveErr(w)) && !leafIs(pa, rv[0], saveErr(w)) {
 					c.Bad("R-C06-2", f, w.Pos(), "audit write "+eng.CallStr(&w.Call), "the error of the audit write is tested or returned", "result is dropped on path "+c.P.PathStr(pa.Blocks))
+				} else {
+					handedOn = true // its error is the helper's own result (a forwarding wrapper)
 				}
 			}
 		}
@@ -445,7 +448,9 @@ func c06Helper(c *eng.Ctx, d *dbInfo, f *ssa.Function, sig checkerSig, we *ssa.F
 		nl := pa.IsNil(rv[0])
 		c.Check(nl == eng.No, "R-C06-2", f, ret.Pos(), "return after failed audit write on path "+c.P.PathStr(pa.Blocks), "fail-closed: when the record cannot be written the helper returns a non-nil error", "returned "+eng.ValStr(pa.Resolve(rv[0]))+" nil-ness="+nl.String())
 	}
-	if nfail == 0 {
+	if nfail == 0 && handedOn {
+		c.Ok("R-C06-2", f, f.Pos(), "failed-audit paths of "+f.Name(), "the audit-writing call's error is returned as it is")
+	} else if nfail == 0 {
 		c.Bad("R-C06-2", f, f.Pos(), "failed-audit paths of "+f.Name(), "the helper tests the audit write's error", "no path distinguishes a failed audit write")
 	}
 	// R-C06-5: entry fields
